@@ -193,13 +193,18 @@ def check_props_file(prop_id: str):
     rc, out = sh(cmd, cwd=COQ, timeout=640)
     records = []
     cur = None
+    in_ax = False      # inside an "Axioms:" block (Coq prints the axiom names at column 0 on the following lines)
     for line in out.splitlines():
         if line.strip() == "Closed under the global context":
             cur = []
+            in_ax = False
             records.append(cur)
         elif line.startswith("Axioms:"):
             cur = [line[len("Axioms:"):].strip()] if line[len("Axioms:"):].strip() else []
+            in_ax = True
             records.append(cur)
+        elif in_ax and cur is not None and re.match(r"^[A-Za-z_][\w.']*\s*($|:)", line):
+            cur.append(line.strip())
         elif cur is not None and records and line.startswith(" ") and cur is records[-1] and (cur or line.strip()):
             if cur is not None and line.strip() and not line.startswith("File"):
                 cur.append(line.strip())
